@@ -101,3 +101,9 @@ def feature_hist(items):
         for f in prog["features"]:
             h[f] = h.get(f, 0) + 1
     return dict(sorted(h.items()))
+
+
+def host_specs(prog):
+    """executor `hosts` table for the host functions a generated program declares"""
+    return [{"name": h["name"], "args": list(h["params"]), "ret": h["ret"], "replies": list(h["replies"]), "log": True}
+            for h in prog.get("hosts", [])]
